@@ -69,6 +69,16 @@ func (ls *LeaseService) Holder() string {
 	return ls.holder.url
 }
 
+// HolderRenewedAt returns when the current holder last renewed (zero time if nobody holds the lease).
+func (ls *LeaseService) HolderRenewedAt() time.Time {
+	ls.mu.Lock()
+	defer ls.mu.Unlock()
+	if ls.holder == nil {
+		return time.Time{}
+	}
+	return ls.holder.RenewedAt()
+}
+
 // SimLeaser is one node's view of the lease service.
 type SimLeaser struct {
 	svc      *LeaseService
